@@ -120,6 +120,9 @@ package nfs
 //@   ensures [Fn1-len] result3 == 0 ==> len(result1) <= count || len(result1) <= 1073774592 @C02 @C11
 // Fn1-flow (C02): what is read is the object of the handle, from the requested offset, for the requested count
 // (a link: all of it), and what inode.Read returned is what is handed on.
+// H1 (C08): data is handed out only for a handle that was validated (number, generation, kind) in this transaction
+//@   ensureslocal [H1-validated] result3 == 0 ==> ip != nil && held[ip.Inum] && matches(ip, fh) && ip.Kind == kind @C08 @C02
+//@   ensures [H1-locked] result3 == 0 ==> held[fhIno(fh)] @C08 @C03
 //@   callsite inode.(*Inode).Read@1 requires [Fn1-args] arg0 == ip && arg2 == offset && arg3 == ite(ip.Kind == 5, ip.Size, count) @C02
 //@   ensureslocal [Fn1-passes-on] result3 == 0 ==> result1 == data && result2 == eof @C02
 
